@@ -414,6 +414,9 @@ MULTI = {
         "kw_m.f90": "module kwm\ncontains\n  subroutine setw(width)\n    integer, intent(in) :: width\n    print *, width\n  end subroutine setw\n"
                     "  subroutine other()\n    call setw(width=4)\n  end subroutine other\nend module kwm\n",
         "kw_main.f90": "program kw_main\n  use kwm\n  integer :: width\n  width = 2\n  call setw(width=3)\n  call setw(width = width)\nend program kw_main\n",
+        # the other kind of quote inside a literal, next to a comment with an apostrophe and a literal with an exclamation mark
+        "quo.f90": "program quo\n  integer :: nq\n  nq = 1\n  print *, \"nq wasn't zero\", nq  ! nq isn't zero here\n"
+                   "  print *, \"nq isn't done\", 'stop!', nq\nend program quo\n",
         "z_last.f90": "subroutine z_last()\n  use shp\n  type(circle) :: c\n  call c%area()\nend subroutine z_last\n"},
     "expect": {
         "x": [("a.f90", 1, 13), ("a.f90", 2, 2), ("a.f90", 3, 18), ("a.f90", 4, 19), ("a.f90", 5, 11), ("a.f90", 6, 22)],
@@ -421,6 +424,7 @@ MULTI = {
         "ext": [("m.f90", 2, 15), ("m.f90", 4, 19), ("m.f90", 9, 9), ("u.f90", 3, 7)],
         "width@dummy": [("kw_m.f90", 2, 18), ("kw_m.f90", 3, 27), ("kw_m.f90", 4, 13), ("kw_m.f90", 7, 14), ("kw_main.f90", 4, 12), ("kw_main.f90", 5, 12)],
         "width@local": [("kw_main.f90", 2, 13), ("kw_main.f90", 3, 2), ("kw_main.f90", 5, 20)],
+        "nq": [("quo.f90", 1, 13), ("quo.f90", 2, 2), ("quo.f90", 3, 29), ("quo.f90", 4, 37)],
         "area": [("b_first.f90", 3, 9), ("b_first.f90", 4, 7), ("shp.f90", 4, 17), ("shp.f90", 7, 13), ("shp.f90", 10, 17),
                  ("z_last.f90", 3, 9)]},
 }
@@ -621,6 +625,13 @@ def extra(repo, reg, tier, seed):
                      "every occurrence to the renamed declaration")
     it.count = ne
     items.append(it)
+    w, n_cs = comment_start_small_scope()
+    it = Item("C06/find_comment_start/lemma.small_scope", "refuted" if w else "bounded-ok", "native-run(bounded)", 0.0, mode="bounded",
+              witness=w, confirmed=True if w else None, func="fortls.parsers.internal.parser.find_comment_start",
+              detail=f"bounded: {n_cs} (line, skipped column) pairs — every line over a five-character alphabet up to length 7 and lines "
+                     "with the other kind of quote inside a literal — against the definition of a trailing comment")
+    it.count = n_cs
+    items.append(it)
     w = native_renamed_use()
     items.append(Item("C06/session/native_references_renamed_use", "refuted" if w else "bounded-ok", "native-run(bounded)", 0.0,
                       mode="bounded", witness=w, confirmed=True if w else None, func=f"{LS}.get_all_references",
@@ -662,7 +673,39 @@ def replay(obligation, model, rep):
     return {"confirmed": None}
 
 
+def comment_start_small_scope(max_len=7):
+    """the real find_comment_start against the definition (first `!` outside a character literal, literals paired left to
+    right, an unclosed literal runs to the end of the line): every string over {a ' " ! blank} up to max_len, plus the
+    shapes a one-pass-per-quote-kind blanking gets wrong (the other kind of quote inside a literal)"""
+    import itertools
+    from fortls.parsers.internal.parser import find_comment_start
+
+    def ref(line, skip=-1):
+        q = ""
+        for i, ch in enumerate(line):
+            if q:
+                if ch == q:
+                    q = ""
+            elif ch in "'\"":
+                q = ch
+            elif ch == "!" and i != skip:
+                return i
+        return -1
+    extra_lines = ['print *, "n wasn\'t zero", n  ! n isn\'t zero here', 'print *, "n isn\'t done", \'stop!\', n',
+                   "x = 'say \"hi!\"' ! c", 'c = "a\'b" // \'c"d\' ! t', "      x = 1 ! y", "!", ""]
+    n = 0
+    for line in itertools.chain(extra_lines, ("".join(t) for k in range(max_len + 1) for t in itertools.product("a'\"! ", repeat=k))):
+        for skip in ((-1,) if len(line) > max_len else (-1, 0, 2)):
+            n += 1
+            got = find_comment_start(line, skip)
+            if got != ref(line, skip):
+                return {"function": "find_comment_start", "line": line, "skip_column": skip, "returned": got, "expected": ref(line, skip)}, n
+    return None, n
+
+
 def search(func, tier, seed, obligation=""):
+    if "find_comment_start" in func:
+        return comment_start_small_scope()[0] or native_references()
     if "strip_comment" in func:
         from fortls.parsers.internal.parser import FortranFile
         for fixed in (False, True):
